@@ -91,6 +91,17 @@ CLAIMS = {
                  "{0,1,2}, no panic marker, wall-clock limit), not by proof."),
         "ref": "DESIGN.md §4 C10",
     },
+    "C12": {
+        "technique": "Lean 4 theorems: anchored case-folding regex over glob/LIKE atoms = textbook matcher (induction on pattern and subject; Kleene-star/suffix lemma), complements of the negative operators, cache transparency under an invariant + in-process validation against the real regex crate + CLI correspondence + Python reference matcher",
+        "text": ("Theorems for every pattern and subject: is_match of the anchored, case-folding, dot-all regex built from the pattern's "
+                 "atoms equals the textbook whole-string matcher (*/% any run incl. newlines, ?/_ exactly one, every other character itself); "
+                 "!=, notlike, !=~, !== are the exact complements of =, like, =~, === whatever the cache holds; ===/!== compare literal text; "
+                 "the shared regex cache is transparent under the invariant CacheOK (keys carry the operator family: D34 fixed) and the "
+                 "invariant is preserved. Not proved: that the model's regex parser maps the escaped pattern text to that atom chain (tested "
+                 "on every generated pattern, labelled a test) and that the regex crate behaves like the model's fragment (validated in-process "
+                 "against the real crate at volume). User regexes outside the fragment are reported `unsupported` and skipped."),
+        "ref": "DESIGN.md §4 C12",
+    },
     "C13": {
         "technique": "Lean 4 theorems on parse_datetime's interval construction and the date comparison table (interval spans per precision, cmp_table, trichotomy, rejection of out-of-range fields, relative days, scanner lemmas) + CLI correspondence on an edge-time grid in three fixed-offset zones + Python datetime oracle",
         "text": ("Theorems for every valid civil date and in-range clock fields: a literal at day/hour/minute/second precision denotes "
